@@ -464,3 +464,31 @@ Proof.
   assert (HP := Qn_gt0 (auc_P (e :: l)) ltac:(lia)). assert (HN := Qn_gt0 (auc_N (e :: l)) ltac:(lia)).
   field. split; lra.
 Qed.
+
+(* ---- the entry point on vector-valued predictions: the two exceptions, then the last of at most two columns ---- *)
+Theorem nauc_eval_vec_spec inv (d : @data (nat * vec)) :
+  match elems d with
+  | [] => nauc_eval_vec inv d = AucExc
+  | e0 :: _ =>
+    let dim := length (snd e0) in
+    ((3 <= dim)%nat -> nauc_eval_vec inv d = AucExc) /\
+    ((dim < 3)%nat ->
+       nauc_eval_vec inv d = nauc_eval inv [map (fun e => (fst e, nth (dim - 1) (snd e) 0)) (elems d)])
+  end.
+Proof.
+  unfold nauc_eval_vec. destruct (elems d) as [|e0 es] eqn:E; [reflexivity|]. cbv zeta. split.
+  - intros H. destruct (3 <=? length (snd e0))%nat eqn:L; [reflexivity|]. apply Nat.leb_gt in L. lia.
+  - intros H. destruct (3 <=? length (snd e0))%nat eqn:L; [apply Nat.leb_le in L; lia|].
+    apply nauc_eval_batching_invariant. unfold elems. simpl. rewrite app_nil_r, <- concat_map.
+    change (concat d) with (elems d). rewrite E. reflexivity.
+Qed.
+
+Theorem nauc_eval_vec_batching_invariant inv (d1 d2 : @data (nat * vec)) :
+  elems d1 = elems d2 -> nauc_eval_vec inv d1 = nauc_eval_vec inv d2.
+Proof.
+  intros H. assert (S1 := nauc_eval_vec_spec inv d1). assert (S2 := nauc_eval_vec_spec inv d2). rewrite <- H in S2.
+  destruct (elems d1) as [|e0 es]; [rewrite S1, S2; reflexivity|]. cbv zeta in *.
+  destruct (le_lt_dec 3 (length (snd e0))) as [L|L].
+  - rewrite (proj1 S1 L), (proj1 S2 L). reflexivity.
+  - rewrite (proj2 S1 L), (proj2 S2 L). reflexivity.
+Qed.
